@@ -16,7 +16,26 @@ def gen_case(rng):
     r = rng.random()
     case = H.Case(prog, rng, newline=rng.choice(["\n", "\n", "\r\n"]), dense=r < 0.12,
                   p_comment=rng.choice([0.0, 0.05, 0.15]), p_doc=rng.choice([0.2, 0.6, 0.95]), p_hot=0.05, family=family)
+    if rng.random() < 0.3:
+        mix_line_ends(case, rng)
     return case
+
+
+def mix_line_ends(case, rng):
+    """mixed line terminators in one document: some LF (not the ones that end a comment) become a lone CR - same length,
+    same lines under the LSP line model, so token offsets and expected lines stay what they are"""
+    t = list(case.text)
+    line_has_comment = False
+    for i, c in enumerate(t):
+        if c == "/" and i + 1 < len(t) and t[i + 1] == "/":
+            line_has_comment = True
+        if c == "\n":
+            if not line_has_comment and (i == 0 or t[i - 1] != "\r") and rng.random() < 0.5:
+                t[i] = "\r"
+            line_has_comment = False
+    case.text = "".join(t)
+    case.mixed = True
+    case.geo = H.Geometry(case.text)
 
 
 def scramble(case, rng):
@@ -30,6 +49,7 @@ def scramble(case, rng):
     c2.__dict__.update(case.__dict__)
     c2.tokens = toks
     c2.family = "syntactically-valid-scrambled-names"
+    c2.mixed = False
     c2.text, c2.spans, c2.gap_comments = H.render(toks, rng, case.doc_gaps, (), case.newline, 0.05, 0.5, 0.0,
                                                  rng.random() < 0.1)
     c2.geo = H.Geometry(c2.text)
@@ -146,7 +166,7 @@ def run(ctx):
     oracle_fail, nontrivial, pre_false = [], set(), []
     for i, c in enumerate(cases):
         hist["family:" + c.family] += 1
-        hist["newline:" + ("crlf" if c.newline == "\r\n" else "lf")] += 1
+        hist["newline:" + ("mixed" if getattr(c, "mixed", False) else "crlf" if c.newline == "\r\n" else "lf")] += 1
         want = H.fold_expected(c)
         hist["procs:%d" % min(len(want), 6)] += 1
         if any(c.gap_comments[inf["start"]] for inf in c.infos if inf["kind"] == "proc"):
